@@ -71,7 +71,7 @@ def run(spec, out):
         calls.append(("e_clip", [np.shape(a)], None, {"lo": lo, "hi": hi}))
         return np.minimum(np.maximum(a, lo), hi)
 
-    def r_tagged(x, axis, *, tag=None):
+    def r_tagged(x, axis, *, tag="default-tag"):
         calls.append(("r_tagged", np.shape(x), axis, {"tag": tag}))
         return np.min(x, axis=axis)
 
